@@ -566,7 +566,16 @@ func (f *Frame) lookupVarAt(name string, b *ssa.BasicBlock, st *State) (TV, bool
 			}
 		}
 	}
-	return f.freeVar(name, st)
+	if tv, ok := f.freeVar(name, st); ok {
+		return tv, true
+	}
+	// <param>0 denotes the entry value of a parameter that the body reassigns
+	if strings.HasSuffix(name, "0") {
+		if tv, ok := f.params[name[:len(name)-1]]; ok {
+			return tv, true
+		}
+	}
+	return TV{}, false
 }
 
 // lookupVarEnd resolves a variable at the end of the function (for ensures with
